@@ -19,7 +19,8 @@
 
    Receipts of a block: Txs(b) = sequence of [id, origin, outs], outs = one entry per clause = [ev, tr],
    ev = sequence of [a, tp, d] (address, sequence of <= 5 topics, data), tr = sequence of [s, r, v].
-   A topic is a sequence of TopicLen bytes.
+   Txs(b) may be any function with a finite domain of positive integers (tx index = position - 1); a transaction that
+   is not in the domain has an empty receipt.  A topic is a sequence of TopicLen bytes.
 
    Variant # "ok" switches ONE rule to a plausible wrong design, to show that the invariants and the trace binding
    have teeth (every one of them must be refuted by TLC, see checks/C15.py):
@@ -46,12 +47,18 @@ VARIABLES stored,   \* blocks in the repository
           best,     \* the repository's best block (head of the canonical chain)
           evRows,   \* event table   : <<blockNum, txIndex, logIndex>> -> stored row
           trRows,   \* transfer table: <<blockNum, txIndex, logIndex>> -> stored row
-          up        \* process running (FALSE between a crash and the restart)
-vars == <<stored, best, evRows, trRows, up>>
+          up,       \* process running (FALSE between a crash and the restart)
+          logging   \* the running process writes logs (FALSE: started with --skip-logs, or the log db is behind after an
+                    \* interrupted resynchronisation); a start-up with logs enabled resynchronises first
+vars == <<stored, best, evRows, trRows, up, logging>>
 
 Nil == "nil"        \* wildcard address in criteria
 NoTopic == <<>>     \* absent topic (NULL column) / wildcard topic in criteria
 Least(a, b) == IF a < b THEN a ELSE b
+\* logdb/sequence.go: seq = blockNum << 35 | txIndex << 20 | logIndex, with 28 / 15 / 20 bits; newSequence refuses more
+MaxTxIndex == 32767
+MaxLogIndex == 1048575
+SeqOK(k) == k[1] <= MaxBlockNumber /\ k[2] <= MaxTxIndex /\ k[3] <= MaxLogIndex
 
 \* ------------------------------------------------------------------------------------------------ chains
 RECURSIVE ChainTo(_)
@@ -77,10 +84,12 @@ FullTopics(tp) == [k \in 1..5 |-> IF k <= Len(tp) THEN tp[k] ELSE NoTopic]
 \* positions <<tx, clause, item>> (1-based) of the events / transfers of a block
 Items(b, kind, i, c) == IF kind = "E" THEN Txs(b)[i].outs[c].ev ELSE Txs(b)[i].outs[c].tr
 Pos(b, kind) == UNION {UNION {{<<i, c, j>> : j \in 1..Len(Items(b, kind, i, c))} : c \in 1..Len(Txs(b)[i].outs)}
-                       : i \in 1..Len(Txs(b))}
+                       : i \in DOMAIN Txs(b)}
 Before(p, q) == \/ p[1] < q[1]
                 \/ p[1] = q[1] /\ (p[2] < q[2] \/ (p[2] = q[2] /\ p[3] < q[3]))
-\* the log index of an item is the number of items of the same kind that precede it IN THE BLOCK
+\* the log index of an item is the number of items of the same kind that precede it IN THE BLOCK, i.e. its rank in
+\* the (tx, clause, item) order of the block
+Ranked(b, kind) == SortSeq(SetToSeq(Pos(b, kind)), Before)
 LogIndexOf(b, kind, p) ==
   Cardinality({q \in Pos(b, kind) : Before(q, p) /\ (Variant = "li-per-tx" => q[1] = p[1])})
 KeyOf(b, kind, p) == <<Num(b), p[1] - 1, LogIndexOf(b, kind, p)>>
@@ -91,8 +100,14 @@ StoredRow(b, kind, p) ==
      THEN [b |-> b, bt |-> Time(b), tx |-> t.id, o |-> t.origin, c |-> p[2] - 1, a |-> x.a, tp |-> StoreTopics(x.tp), d |-> x.d]
      ELSE [b |-> b, bt |-> Time(b), tx |-> t.id, o |-> t.origin, c |-> p[2] - 1, s |-> x.s, r |-> x.r, v |-> x.v]
 \* the rows one call of Writer.Write(b, receipts) tries to insert
-RowsOf(b, kind) == LET P == Pos(b, kind)
-                   IN [k \in {KeyOf(b, kind, p) : p \in P} |-> StoredRow(b, kind, CHOOSE p \in P : KeyOf(b, kind, p) = k)]
+RowsOf(b, kind) ==
+  IF Variant = "li-per-tx"
+  THEN LET P == Pos(b, kind)
+       IN [k \in {KeyOf(b, kind, p) : p \in P} |-> StoredRow(b, kind, CHOOSE p \in P : KeyOf(b, kind, p) = k)]
+  ELSE LET s == Ranked(b, kind)           \* s[i] has log index i - 1 (same as KeyOf, linear instead of cubic)
+       IN [k \in {<<Num(b), s[i][1] - 1, i - 1>> : i \in 1..Len(s)} |-> StoredRow(b, kind, s[k[3] + 1])]
+\* Writer.Write returns an error (and the caller rolls the transaction back) when a key does not fit the packing
+WriteErr(b) == \E kind \in {"E", "T"} : \E k \in DOMAIN RowsOf(b, kind) : ~SeqOK(k)
 \* INSERT OR IGNORE: an occupied key keeps its row
 InsertIgnore(R, new) == [k \in DOMAIN R \cup DOMAIN new |-> IF k \in DOMAIN R THEN R[k] ELSE new[k]]
 WriteBlock(R, b, kind) == InsertIgnore(R, RowsOf(b, kind))
@@ -136,37 +151,57 @@ ResyncTable(R, kind, pos, bst) ==
   IN WriteBlocks(Truncate(R, p), SubSeq(ChainTo(bst), p + 1, Num(bst) + 1), kind)
 
 \* ------------------------------------------------------------------------------------------------ actions
-Init == /\ stored = {Genesis} /\ best = Genesis /\ up = TRUE
+Init == /\ stored = {Genesis} /\ best = Genesis /\ up = TRUE /\ logging = TRUE
         /\ evRows = RowsOf(Genesis, "E") /\ trRows = RowsOf(Genesis, "T")      \* genesis logs are written at first start
 
-Importable(b) == up /\ b \notin stored /\ Par(b) \in stored
+Storable(b) == up /\ b \notin stored /\ Par(b) \in stored
+Importable(b) == Storable(b) /\ logging
 \* the block becomes best: log transaction, then the block is stored
-ImportBest(b) == /\ Importable(b)
+ImportBest(b) == /\ Importable(b) /\ ~WriteErr(b)
                  /\ evRows' = WriteLogs(evRows, "E", best, b)
                  /\ trRows' = WriteLogs(trRows, "T", best, b)
                  /\ stored' = stored \cup {b} /\ best' = b
-                 /\ UNCHANGED up
+                 /\ UNCHANGED <<up, logging>>
 \* the block is stored as a side block: the log db is not touched
 ImportSide(b) == /\ Importable(b)
                  /\ stored' = stored \cup {b}
-                 /\ UNCHANGED <<best, evRows, trRows, up>>
+                 /\ UNCHANGED <<best, evRows, trRows, up, logging>>
 \* the process dies after the log transaction of a would-be best block was committed and before the block is stored
-CrashMid(b) == /\ Importable(b)
+CrashMid(b) == /\ Importable(b) /\ ~WriteErr(b)
                /\ evRows' = WriteLogs(evRows, "E", best, b)
                /\ trRows' = WriteLogs(trRows, "T", best, b)
                /\ up' = FALSE
-               /\ UNCHANGED <<stored, best>>
-\* any other crash point leaves repository and log db as they are between two imports
-Crash == up /\ up' = FALSE /\ UNCHANGED <<stored, best, evRows, trRows>>
+               /\ UNCHANGED <<stored, best, logging>>
+\* any other crash point / a shutdown leaves repository and log db as they are between two imports
+Crash == up /\ up' = FALSE /\ UNCHANGED <<stored, best, evRows, trRows, logging>>
+\* a start with --skip-logs: the node runs, imports and reorganises, the log db stays as it was
+StartSkipLogs == ~up /\ up' = TRUE /\ logging' = FALSE /\ UNCHANGED <<stored, best, evRows, trRows>>
+ImportSkipLogs(b, becomesBest) == /\ Storable(b) /\ ~logging
+                                  /\ stored' = stored \cup {b}
+                                  /\ best' = IF becomesBest THEN b ELSE best
+                                  /\ UNCHANGED <<evRows, trRows, up, logging>>
 \* start-up: genesis logs (INSERT OR IGNORE), then thor's syncLogDB against the repository's best block
-Resync == LET E0 == WriteBlock(evRows, Genesis, "E")
-              T0 == WriteBlock(trRows, Genesis, "T")
-              pos == SeekPos(E0, T0, best)
-          IN /\ up' = TRUE
-             /\ IF InSync(pos, best) THEN evRows' = E0 /\ trRows' = T0
-                ELSE /\ evRows' = ResyncTable(E0, "E", pos, best)
-                     /\ trRows' = ResyncTable(T0, "T", pos, best)
+GenesisE == WriteBlock(evRows, Genesis, "E")
+GenesisT == WriteBlock(trRows, Genesis, "T")
+Resync == LET pos == SeekPos(GenesisE, GenesisT, best)
+          IN /\ up' = TRUE /\ logging' = TRUE
+             /\ IF InSync(pos, best) THEN evRows' = GenesisE /\ trRows' = GenesisT
+                ELSE /\ evRows' = ResyncTable(GenesisE, "E", pos, best)
+                     /\ trRows' = ResyncTable(GenesisT, "T", pos, best)
              /\ UNCHANGED <<stored, best>>
+\* syncLogDB cancelled (ctx.Done) after the block of height j was written: everything up to there is committed (there
+\* are intermediate commits every 2048 statements anyway), the process exits; the next start resynchronises again
+ResyncTableUpTo(R, kind, pos, bst, j) ==
+  LET p == IF pos = 0 THEN 1 ELSE pos
+  IN WriteBlocks(Truncate(R, p), SubSeq(ChainTo(bst), p + 1, j + 1), kind)
+ResyncCancelled(j) ==
+  LET pos == SeekPos(GenesisE, GenesisT, best)
+      p == IF pos = 0 THEN 1 ELSE pos
+  IN /\ ~up /\ ~InSync(pos, best) /\ p <= j /\ j <= Num(best)
+     /\ evRows' = ResyncTableUpTo(GenesisE, "E", pos, best, j)
+     /\ trRows' = ResyncTableUpTo(GenesisT, "T", pos, best, j)
+     /\ logging' = FALSE
+     /\ UNCHANGED <<stored, best, up>>
 
 \* ------------------------------------------------------------------------------------------------ what a reader sees
 ReadRow(kind, k, row) ==
@@ -195,10 +230,11 @@ FlatOuts(b, kind, i, c, cnt) ==
   ELSE LET xs == Items(b, kind, i, c)
            here == [j \in 1..Len(xs) |-> ExpectRow(b, kind, i, c, xs[j], cnt + j - 1)]
        IN here \o FlatOuts(b, kind, i, c + 1, cnt + Len(xs))
+TxOrder(b) == SortSeq(SetToSeq(DOMAIN Txs(b)), <)
 RECURSIVE FlatTxs(_, _, _, _)
-FlatTxs(b, kind, i, cnt) ==
-  IF i > Len(Txs(b)) THEN <<>>
-  ELSE LET part == FlatOuts(b, kind, i, 1, cnt) IN part \o FlatTxs(b, kind, i + 1, cnt + Len(part))
+FlatTxs(b, kind, n, cnt) ==
+  IF n > Len(TxOrder(b)) THEN <<>>
+  ELSE LET part == FlatOuts(b, kind, TxOrder(b)[n], 1, cnt) IN part \o FlatTxs(b, kind, n + 1, cnt + Len(part))
 BlockList(b, kind) == FlatTxs(b, kind, 1, 0)
 RECURSIVE ConcatLists(_, _)
 ConcatLists(bs, kind) == IF bs = <<>> THEN <<>> ELSE BlockList(Head(bs), kind) \o ConcatLists(Tail(bs), kind)
@@ -206,8 +242,8 @@ CanonicalList(h, kind) == ConcatLists(ChainTo(h), kind)
 
 \* C15, first sentence: the stored events and transfers are exactly those of the receipts of the canonical chain, in
 \* chain order, with block id/time, tx id/origin, clause index and block-wide log index - and nothing else
-RowsEqualCanonical == up => /\ Table(evRows, "E") = CanonicalList(best, "E")
-                            /\ Table(trRows, "T") = CanonicalList(best, "T")
+RowsEqualCanonical == (up /\ logging) => /\ Table(evRows, "E") = CanonicalList(best, "E")
+                                         /\ Table(trRows, "T") = CanonicalList(best, "T")
 
 \* ------------------------------------------------------------------------------------------------ filters
 \* EventCriteria / TransferCriteria.toWhereCondition: AND of the given fields, nil = wildcard; topics are compared in
